@@ -217,13 +217,19 @@ def observe(cfg, want):
             e = {"CylindricalGrid1D": 1, "SphericalGrid1D": 1, "CylindricalGrid2D": 1, "SphericalGrid3D": -1}.get(cfg["cls"], 0)
             integ = {}
             periodic_any = any(v["periodic"] for v in cfg["bc"].values())
-            for name in ("implicit_central", "implicit_upwind", "explicit"):
+            for name in ("implicit_central", "implicit_upwind", "explicit", "explicit_update"):
                 v = P.CellVariable(c.m, interior_ints(cfg, c), opsdrive.make_bc(c.m, cfg["bc"], d))
                 seq = [v.domainIntegral()]
                 for it in range(3):
                     if name == "explicit":
                         rhs = P.divergenceTerm(c.D * P.gradientTerm(v)) - P.divergenceTerm(c.u * P.linearMean(v))
                         v = P.solveExplicitPDE(v, 0.001, rhs)
+                    elif name == "explicit_update":
+                        # the loop style of the repository's own explicit example: the old variable is kept and
+                        # refreshed with update_value()
+                        rhs = P.divergenceTerm(c.D * P.gradientTerm(v)) - P.divergenceTerm(c.u * P.linearMean(v))
+                        vnew = P.solveExplicitPDE(v, 0.001, rhs)
+                        v.update_value(vnew)
                     else:
                         conv = P.convectionTerm(c.u) if name == "implicit_central" else P.convectionUpwindTerm(c.u)
                         P.solvePDE(v, [P.transientTerm(v, 0.5, 1.0), -P.diffusionTerm(c.D), conv])
